@@ -262,10 +262,10 @@ func c12String(c *ctx, data string, class string, toCoq bool) {
 }
 
 var c12Reps = [5][]byte{
-	{'x', 'G', 'z', 'g', 'T'},                      // letter, not a hex digit
-	{'@'},                                          // separator
-	{'6', 'a', '0', 'f', '9', 'c'},                 // hex digit (lower case)
-	{'B', 'A', 'F', 'D'},                           // upper-case hex digit
+	{'x', 'G', 'z', 'g', 'T'},      // letter, not a hex digit
+	{'@'},                          // separator
+	{'6', 'a', '0', 'f', '9', 'c'}, // hex digit (lower case)
+	{'B', 'A', 'F', 'D'},           // upper-case hex digit
 	{' ', '/', ':', '`', 0x00, 0xff, '?', '\n', '"'}, // neither hex nor letter (incl. the neighbours of the ranges)
 }
 var c12ClassNames = [5]string{"L", "@", "h", "H", "n"}
@@ -507,7 +507,7 @@ func c12StorageRoundTrip(c *ctx, l []*vmcommon.StorageUpdate) {
 
 // ---- txDataBuilder scripts ----
 func c12CByte(b byte) string { return fmt.Sprintf("(n2b %d%%N)", b) }
-func c12CInt(v int64) string  { return cZ(big.NewInt(v)) }
+func c12CInt(v int64) string { return cZ(big.NewInt(v)) }
 
 func c12BuilderScript(c *ctx) {
 	b := txDataBuilder.NewBuilder()
@@ -687,9 +687,9 @@ func c12TokenPayloads(c *ctx) [][]byte {
 	add(&esdt.ESDigitalToken{Type: 1, Value: big.NewInt(0)})
 	add(&esdt.ESDigitalToken{Type: 1, Value: new(big.Int).Lsh(big.NewInt(3), 90)})
 	add(&esdt.ESDigitalToken{Type: 1, Value: big.NewInt(-4)})
-	add(&esdt.ESDigitalToken{Type: 1})                                              // nil Value, as marshalled
-	add(&esdt.ESDigitalToken{Type: 2, TokenMetaData: &esdt.MetaData{Nonce: 7}})     // nil Value with metadata
-	add(&esdt.ESDigitalToken{Properties: []byte{1, 0}, Reserved: []byte{1}})        // no Value
+	add(&esdt.ESDigitalToken{Type: 1})                                          // nil Value, as marshalled
+	add(&esdt.ESDigitalToken{Type: 2, TokenMetaData: &esdt.MetaData{Nonce: 7}}) // nil Value with metadata
+	add(&esdt.ESDigitalToken{Properties: []byte{1, 0}, Reserved: []byte{1}})    // no Value
 	l = append(l, []byte{}, []byte{5}, []byte{0x08, 0x01}, []byte{0x12, 0x01, 0x00}, []byte{0x12, 0x02, 0x00, 0x09}, []byte{0x12, 0x02, 0x01, 0x09},
 		[]byte{0x12, 0x00}, []byte{0x12, 0x02, 0x07, 0x01}, []byte{0x12, 0x05, 0x00}, []byte{0xff, 0xff, 0xff}, []byte{0x0a}, []byte{0x08, 0x01, 0x12, 0x02, 0x00, 0x2a, 0x12, 0x01, 0x00})
 	if len(l) > 0 {
